@@ -491,6 +491,12 @@ func Solve(text string, timeout time.Duration, seed int) Result {
 	return last
 }
 
+// SolveQuick runs z3 4.8.12 alone with a short budget (vacuity canaries: only an unsat
+// answer matters).
+func SolveQuick(text string, timeout time.Duration, seed int) Result {
+	return runOne(solvers[1], text, timeout, seed, context.Background())
+}
+
 // SolveAll runs every solver to completion and returns each answer (thorough tier).
 func SolveAll(text string, timeout time.Duration, seed int) []Result {
 	var wg sync.WaitGroup
